@@ -1,5 +1,32 @@
-(* C02 - statements only. *)
-Require Import List ZArith. Require Import IW.KV.Node IW.KV.Node_proofs.
-Theorem C02_insert_length : forall K V (n : recs K V) i e, length (insert_at K V n i e) = S (length n).
-Proof. exact insert_at_length. Qed.
-Print Assumptions C02_insert_length.
+(* C02 - cursors enumerate records in key order.  Statements only. *)
+Require Import List ZArith Lia. Import ListNotations.
+Require Import IW.KV.Node IW.KV.Cursor IW.KV.Cursor_proofs IW.KV.Node_proofs IW.KV.Inst IW.KV.Keys_proofs IW.Gen.Facts.
+
+(* For EVERY chain of non-empty nodes with distinct identities (any number of nodes, any node sizes) and whatever
+   state the cursor was in before: BEFORE_FIRST followed by repeated NEXT (reading the record after each successful
+   move) returns exactly the records of the chain, in chain order, each once, and then reports the end. Together with
+   C01 (the flattened chain is the sorted association list) this is "every live record exactly once in key order". *)
+Theorem C02_scan_next_all :
+  forall (K V : Type) (IDXNUM : nat), 1 <= IDXNUM ->
+  forall (c : chain K V) (cur0 : cursor) (fuel : nat),
+    ids_unique K V c -> nonempty_nodes K V c -> length (flat K V c) < fuel ->
+    scan_next K V IDXNUM fuel c (snd (cursor_to K V IDXNUM c cur0 CBeforeFirst)) = flat K V c.
+Proof. exact scan_next_all. Qed.
+Print Assumptions C02_scan_next_all.
+
+(* PARTIAL: the reverse scan (AFTER_LAST, PREV), the EQ/GE positioning and the positioned read/write operations are in
+   the model (KV/Cursor.v: cursor_to, cursor_to_key, cursor_read; KV/Inst.v: db_cset, db_cdel) and are tied to the
+   implementation by the correspondence check, but no theorem about them is proved here. *)
+
+(* Non-vacuity: a three-node chain; the scan computed by the model returns its five records in order. *)
+Definition ex_chain : chain nat nat := [(1, [(10, 0); (9, 0)]); (2, [(7, 0)]); (5, [(4, 0); (2, 0)])].
+Example C02_scan_example :
+  scan_next nat nat 32 10 ex_chain (snd (cursor_to nat nat 32 ex_chain (cursor_init) CBeforeFirst))
+  = [(10, 0); (9, 0); (7, 0); (4, 0); (2, 0)].
+Proof. vm_compute. reflexivity. Qed.
+Example C02_example_hyps : ids_unique nat nat ex_chain /\ nonempty_nodes nat nat ex_chain.
+Proof.
+  split.
+  - unfold ids_unique. simpl. repeat constructor; simpl; intuition discriminate.
+  - unfold nonempty_nodes. repeat constructor; simpl; discriminate.
+Qed.
